@@ -11,7 +11,7 @@ from .hist import HARNESS_STEPS, INTERNAL_HANDLER_TYPES, Index
 SWEEP_CAUSES = CAUSES
 
 
-def release_oracle(ix: Index, notes: Any = None) -> list[Violation]:
+def release_oracle(ix: Index, notes: Any = None, slow_close: bool = False) -> list[Violation]:
     out: list[Violation] = []
     a = ix.audit
     if a is None:
@@ -57,6 +57,23 @@ def release_oracle(ix: Index, notes: Any = None) -> list[Violation]:
             if seq > T and sub_conn.get(d.get("tag")) == c:
                 out.append(Violation("callback-after-close", kind, f"{c}: subscriber callback {kind} at turn {turn} after the connection closed"))
                 break
+    # no task stays blocked on a closed connection: whatever was running on it when it closed (connect phases included)
+    # ends without any further virtual time passing (only event-loop turns), stalls aside
+    stall = sum(d for _, d in ix.stalls)
+    for op in ix.ops:
+        c = op.conn
+        if c is None or c not in ix.closed_seq or op.do in HARNESS_STEPS or slow_close:
+            continue
+        T = ix.closed_seq[c]
+        if not (op.s0 < T and (op.s1 is None or T < op.s1)):
+            continue
+        tc = ix.closed_t[c]
+        if op.s1 is None:
+            end_t = ix.run_end[2] if ix.run_end else tc
+            if end_t > tc + stall + 1e-9 and ix.run_end and ix.run_end[4].get("reason") != "cap":
+                out.append(Violation("blocked-after-close", f"{op.do}:pending", f"{op.actor}[{op.i}] {op.do} was running on {c} when it closed at t={tc:.6f} and was still blocked at the end of the run (t={end_t:.6f})"))
+        elif op.t1 > tc + stall + 1e-9:
+            out.append(Violation("blocked-after-close", op.do, f"{op.actor}[{op.i}] {op.do} was running on {c} when it closed at t={tc:.6f} but returned only at t={op.t1:.6f}"))
     for seq, conn, timers, turn, t in ix.post_close_timers:
         for tm in timers:
             out.append(Violation("timer-armed-after-close", tm["cb"].rsplit(".", 1)[-1], f"{conn}: library timer {tm['cb']} (due in {tm['in']}s) still armed a few event-loop turns after the connection closed"))
@@ -118,7 +135,7 @@ class C08(CheckBase):
             yield v
 
     def oracle(self, run: Any, scn: dict) -> list[Violation]:
-        return release_oracle(Index(run.history))
+        return release_oracle(Index(run.history), slow_close=bool(scn.get("knobs", {}).get("zc_close_delay")))
 
     def note(self, run: Any, scn: dict, notes: Any) -> None:
         ix = Index(run.history)
